@@ -200,18 +200,20 @@ func (s *SkipList) Find(key []byte) *entry {
 
 	// Start at the highest level, and work our way down
 	// At each level, move right as far as possible without overshooting
+	var candidate *node
 	for level := height - 1; level >= 0; level-- {
 		next := current.getNext(level)
 		for next != nil && next.entry.compare(key) < 0 {
 			current = next
 			next = current.getNext(level)
 		}
-		// When we exit this loop, current.next[level] is either nil or >= key
+		// When we exit this loop, next is either nil or >= key
+		candidate = next
 	}
 
-	// We're now at level 0 with current just before the potential target
-	// Check next node to see if it's our target key
-	candidate := current.getNext(0)
+	// We're now at level 0 and candidate is the node the search stopped at.
+	// Do not read current's link again: a concurrent insert may have put a
+	// smaller key there since the comparison above
 	if candidate == nil || candidate.entry.compare(key) != 0 {
 		// Key doesn't exist in the list
 		return nil
@@ -309,17 +311,21 @@ func (it *Iterator) Seek(key []byte) {
 
 	// Start at the highest level, and work our way down
 	// At each level, move right as far as possible without overshooting
+	var found *node
 	for level := height - 1; level >= 0; level-- {
 		next := current.getNext(level)
 		for next != nil && next.entry.compare(key) < 0 {
 			current = next
 			next = current.getNext(level)
 		}
-		// When we exit this loop, current.next[level] is either nil or >= key
+		// When we exit this loop, next is either nil or >= key
+		found = next
 	}
 
-	// Move to the next node at level 0, which should be >= target
-	it.current = current.getNext(0)
+	// Position on the node the level-0 search stopped at, which is >= target.
+	// Do not read current's link again: a concurrent insert may have put a
+	// smaller key there since the comparison above
+	it.current = found
 
 	// Skip nodes that are not visible in our snapshot
 	for it.current != nil && it.current != it.list.head && !it.isVisible(it.current) {
